@@ -1442,8 +1442,9 @@ def _zip(it, args, kwargs):
 
 def _enumerate(it, args, kwargs):
     seq = it.concrete_iter(args[0])
-    if seq is not None:
-        return list(enumerate(seq))
+    start = kwargs.get("start", args[1] if len(args) > 1 else 0)
+    if seq is not None and isinstance(start, int):
+        return list(enumerate(seq, start))
     return it.w.uf("enumerate", list(args), "val")
 
 
